@@ -7,10 +7,12 @@
 (* A FAMILY fixes, for every line position, the set of lines that may be   *)
 (* written there (alphabets are products of small sets of body ITEMS).     *)
 (* Static families: one #define per macro slot, then the family's call-    *)
-(* site texts in order (Text lines have no effect on the macro table, so   *)
-(* one behaviour carries the verdict for |texts| programs).  Dynamic       *)
-(* families: any sequence of lines over a small alphabet with #undef,      *)
-(* redefinition and #pragma push_macro / pop_macro between the uses.       *)
+(* site Text lines (they have no effect on the macro table, so they are    *)
+(* appended in one step, TextBlock, and one behaviour carries the verdict  *)
+(* for |texts| programs).  Dynamic families: DynLen / CdLen free lines     *)
+(* over a small alphabet with #undef, redefinition and #pragma push_macro  *)
+(* / pop_macro between uses, then the family's Text lines; family cd       *)
+(* starts from command-line (-D) macro tables.                             *)
 (***************************************************************************)
 EXTENDS MacroRef, Json, CSV, IOUtils
 
